@@ -11,14 +11,14 @@ use coset::{CborOrdering, CborSerializable};
 use serde_json::json;
 
 pub fn run(rep: &Report) -> u64 {
-    rep.set_rule("C20: keys = kty in {OKP, text} x every subset of {kid, alg, key_ops, base_iv} x every ordered selection of 0..3 (quick) / 0..4 (thorough) extra labels from a 14-label palette (0, 6, 23, 24, 255, 256, 65536, -1, -24, -25, -257, \"a\", \"aa\", \"b\"), in-memory and re-obtained by decoding, x both orderings; after canonicalize: emitted keys strictly ascending under the ordering (on independently read encodings), same set of (label, value) pairs, second canonicalize is a no-op, decode/re-encode reproduces the bytes; non-trivial = keys with >= 2 extras; distinct by (key, ordering)");
+    rep.set_rule("C20: keys = kty in {OKP, text} x every subset of {kid, alg, key_ops, base_iv} x every ordered selection of 0..3 (quick) / 0..4 (thorough) extra labels from a 16-label palette (0, 6, 23, 24, 255, 256, 65536, -1, -24, -25, -257, \"a\", \"aa\", \"b\", \"e-acute\", \"zz\"), in-memory and re-obtained by decoding, x both orderings; after canonicalize: emitted keys strictly ascending under the ordering (on independently read encodings), same set of (label, value) pairs, second canonicalize is a no-op, decode/re-encode reproduces the bytes; non-trivial = keys with >= 2 extras; distinct by (key, ordering)");
     rep.assume("ordering of encoded keys: bytewise lexicographic (RFC 8949 4.2.1) or length-first (RFC 7049 3.9) on refcbor's deterministic encodings");
     explore(&Ex::own(rep, crate::oracle::Checks::NONE));
     1000
 }
 
 pub fn extra_palette() -> Vec<RLabel> {
-    vec![l_int(0), l_int(6), l_int(23), l_int(24), l_int(255), l_int(256), l_int(65536), l_int(-1), l_int(-24), l_int(-25), l_int(-257), l_text("a"), l_text("aa"), l_text("b")]
+    vec![l_int(0), l_int(6), l_int(23), l_int(24), l_int(255), l_int(256), l_int(65536), l_int(-1), l_int(-24), l_int(-25), l_int(-257), l_text("a"), l_text("aa"), l_text("b"), l_text("\u{e9}"), l_text("zz")]
 }
 
 fn viol(what: &str, case: &str, expected: String, observed: String) -> Viol {
